@@ -131,6 +131,10 @@ func (fs *subDirFS) Walk(ctx context.Context, target string, fn gofs.WalkDirFunc
 		}
 		dStat := d.Stat.Clone()
 		if err := fn(d.Stat.Path, &DirEntryInfo{Stat: dStat}, nil); err != nil {
+			if err == filepath.SkipDir {
+				// the caller is not interested in this sub-root: go on with the next one
+				continue
+			}
 			return err
 		}
 		if err := d.FS.Walk(ctx, rest, func(p string, entry gofs.DirEntry, err error) error {
